@@ -233,3 +233,13 @@ Proof.
   exists [[0]; []; []], {| ro_row := (0, [(1%nat, (5, 0))]); ro_y := None; ro_rmap := 0; ro_tmap := 1; ro_cmap := 2 |}, (RoAppend (1%nat, (7, 0))).
   split; [apply ok_intro; cbn; lia|]. vm_compute. discriminate.
 Qed.
+
+(* ---- objects without shared mutable state: the interleaved run on the pair IS the pair of the two solo runs ---- *)
+Theorem product_commutes {S Op} (step : S -> Op -> S) : forall (ops : list (bool * Op)) (a b : S),
+  prun2 step a b ops = (prun1 step a (pside true ops), prun1 step b (pside false ops)).
+Proof.
+  induction ops as [|[s o] ops IH]; intros a b; [reflexivity|].
+  destruct s; cbn [prun2 pside filter map fst snd Bool.eqb]; rewrite IH; reflexivity.
+Qed.
+Lemma co_clone_eq c : co_clone c = c. Proof. destruct c; reflexivity. Qed.
+Lemma ko_clone_eq c : ko_clone c = c. Proof. destruct c; reflexivity. Qed.
